@@ -142,7 +142,8 @@ class kFlowDecompCycles(walkmodel.AbstractWalkModelDiGraph):
 
 
         self.k = k
-        self.optimization_options = optimization_options or {}        
+        # Work on a copy: the model adds its own entries, and the caller's dict must not be modified
+        self.optimization_options = dict(optimization_options) if optimization_options else {}        
 
         self.subset_constraints_coverage = subset_constraints_coverage
         
